@@ -45,6 +45,44 @@ def run_trace(P, pid, tier, rng):
         if k not in names:
             raise MachineryError(f"kernel {k} has no obligation in Cgm/Trace/{pid}[Auto].lean")
     rc, out = core.lake_build([f"Cgm.Trace.{m}" for m in mods])
+    # end-to-end corollaries (property clauses stated about the regenerated kernels): built when the obligations they
+    # compose still hold; a failure there is reported like a failed obligation
+    e2e = os.path.exists(f"{LEAN}/Cgm/E2E/{pid}.lean")
+    res["e2e_theorems"] = 0
+    if rc == 0 and e2e:
+        espans = _theorem_spans(f"{LEAN}/Cgm/E2E/{pid}.lean")
+        res["e2e_theorems"] = len(espans)
+        rc_e, out_e = core.lake_build([f"Cgm.E2E.{pid}"])
+        if rc_e != 0:
+            hit = False
+            for m in re.finditer(r"error: (?:\./)?Cgm/E2E/%s\.lean:(\d+):" % pid, out_e):
+                ln = int(m.group(1))
+                owner = None
+                for (start, name) in espans:
+                    if start <= ln:
+                        owner = name
+                if owner:
+                    hit = True
+                    failed.setdefault("E2E." + owner, f"T:E2E.{owner}: the end-to-end theorem `Cg.E2E.{pid}.{owner}` no longer checks "
+                                                      f"against the definitions regenerated from the source (Cgm/E2E/{pid}.lean:{ln})")
+            if not hit:
+                raise MachineryError(f"lake build Cgm.E2E.{pid} failed for another reason:\n{out_e[-3000:]}")
+        else:
+            apath = f"Cgm/Audit/E{pid}.lean"
+            if not os.path.exists(f"{LEAN}/{apath}"):
+                raise MachineryError(f"missing {apath}")
+            rc2, out2 = core.run(["lake", "env", "lean", apath], cwd=LEAN, timeout=900)
+            if rc2 != 0:
+                raise MachineryError(f"audit of end-to-end theorems failed:\n{out2[-2000:]}")
+            n_aud = 0
+            for line in out2.split("\n"):
+                if line.startswith("THEOREM "):
+                    n_aud += 1
+                    axs = {a.strip() for a in line.split(" AXIOMS ")[1].strip().strip("[]").split(",") if a.strip()}
+                    if not axs <= core.STD_AXIOMS:
+                        raise MachineryError(f"end-to-end theorem {line.split(' ')[1]} uses non-standard axioms {axs}")
+            if n_aud < len(espans):
+                raise MachineryError(f"audit of Cgm.E2E.{pid} saw {n_aud} theorems, the file has {len(espans)}")
     if rc != 0:
         hit = False
         for m in re.finditer(r"error: (?:\./)?Cgm/Trace/(%s(?:Auto)?)\.lean:(\d+):" % pid, out):
